@@ -2,7 +2,7 @@
 import ast
 
 from ..consteval import ConstEval, TOP
-from ..model import src, short, walk_no_nested, call_name, is_self_attr
+from ..model import src, short, walk_no_nested, call_name, is_self_attr, cc
 from ..modespec import Spec
 
 CFGMOD = "nifty.config"
@@ -356,3 +356,119 @@ def run(ctx):  # noqa: F811
     r09_3(ctx, ctx.model)
     r09_4(ctx, ctx.model)
     r09_5(ctx, ctx.model)
+
+
+def r09_6(ctx, m):
+    """the Hartley convention is a property of the configuration at the time of the transform, not of an operator object"""
+    ctx.rule("R09.6", "the Hartley convention is read from the shared configuration by the function that performs the transform, in "
+                      "the same call: no reader takes the convention as a parameter that overrides the lookup, and no class "
+                      "remembers a configuration value in an instance attribute (an operator built before config.update would "
+                      "disagree with every other implementation afterwards)", floor=3)
+    readers = []
+    for modn in (DD, RCF, HO):
+        mod = m.module(modn, required=False)
+        if mod is None:
+            continue
+        for fi in mod.all_functions:
+            reads = [c for c in walk_no_nested(fi.node) if isinstance(c, (ast.Call, ast.Subscript)) and "hartley_convention" in src(c) and "_config" in src(c)
+                     and (isinstance(c, ast.Subscript) or call_name(c) == "get")]
+            if not reads:
+                continue
+            readers.append(fi)
+            ctx.saw_func(fi)
+            key = f"{fi.key}::reads the convention at transform time"
+            if fi.name == "__init__" or any(isinstance(st, ast.Assign) and isinstance(st.targets[0], ast.Attribute) and src(st.targets[0].value) == "self"
+                                            and any(x is reads[0] for x in ast.walk(st.value)) for st in ast.walk(fi.node)):
+                ctx.bad("R09.6", key, f"`{src(reads[0])}` is stored on the instance: later config.update calls are ignored by this object", fi, reads[0])
+                continue
+            # the lookup must not be overridable by an argument
+            params = set(fi.params())
+            over = None
+            for r in reads:
+                for x in walk_no_nested(fi.node):
+                    if isinstance(x, ast.IfExp) and any(y is r for y in ast.walk(x)) and any(isinstance(n_, ast.Name) and n_.id in params for n_ in ast.walk(x.test)):
+                        over = x
+            does_transform = any(isinstance(c, ast.Call) and _is_transform_name(call_name(c) or "") for c in walk_no_nested(fi.node)) or \
+                any(isinstance(a, ast.Attribute) and _is_transform_name(a.attr) for a in walk_no_nested(fi.node))
+            if over is not None:
+                ctx.bad("R09.6", key, f"`{src(over)}`: a caller-supplied value overrides the configuration", fi, over)
+            else:
+                ctx.check("R09.6", key, True if does_transform else None, None if does_transform else "no transform call found next to the lookup", fi, reads[0])
+    if not readers:
+        ctx.error("R09.6: no reader of hartley_convention found")
+
+
+def r09_7(ctx, m):
+    """zero width means identity - and only zero width"""
+    from ..util import cfg_of, known_atoms
+    ctx.rule("R09.7", "HarmonicSmoothingOperator returns the identity only under the exact test sigma == 0 (sigma carries the units "
+                      "of the grid: a tolerance test such as isclose/abs(sigma) < eps turns every small-scale grid's smoothing off); "
+                      "negative widths are refused before", floor=2)
+    fi = m.func(HO, "HarmonicSmoothingOperator", required=False)
+    if fi is None:
+        ctx.error("R09.7: HarmonicSmoothingOperator missing")
+        return
+    ctx.saw_func(fi)
+    sg = fi.params()[1]
+    cfg = cfg_of(fi)
+    ident = [n for n in cfg.nodes if n.kind == "stmt" and isinstance(n.ast, ast.Return) and isinstance(n.ast.value, ast.Call)
+             and call_name(n.ast.value) in ("ScalingOperator",) and len(n.ast.value.args) >= 2 and src(n.ast.value.args[1]) in ("1.0", "1", "1.")]
+    key = f"{fi.key}::identity shortcut"
+    if len(ident) != 1:
+        ctx.und("R09.7", key, f"{len(ident)} identity returns", fi)
+    else:
+        atoms = known_atoms(cfg, ident[0].id)
+        mine = [(t, pol) for t, pol in atoms if sg in {x.id for x in ast.walk(t) if isinstance(x, ast.Name)} and "<" not in cc(t)]
+        exact = [1 for t, pol in mine if pol and cc(t) in (f"{sg} == 0.0", f"{sg} == 0")] + \
+                [1 for t, pol in mine if not pol and cc(t) in (f"{sg} != 0.0", f"{sg} != 0")]
+        tol = [t for t, pol in atoms if any(w in src(t) for w in ("isclose", "allclose", "finfo", "eps")) or
+               (isinstance(t, ast.Compare) and "abs(" in src(t))]
+        if tol:
+            ctx.bad("R09.7", key, f"guarded by the tolerance test `{src(tol[0])}`: widths that are small in absolute units but not small "
+                                  "compared with the pixel size are treated as zero", fi, ident[0].ast)
+        else:
+            ctx.check("R09.7", key, True if exact else None, f"guards {[('' if p else 'not ') + src(t) for t, p in atoms]}", fi, ident[0].ast)
+    raises = [n for n in cfg.nodes if n.kind == "stmt" and isinstance(n.ast, ast.Raise)]
+    neg = [n for n in raises if any(pol and cc(t) in (f"{sg} < 0.0", f"{sg} < 0") for t, pol in known_atoms(cfg, n.id))]
+    ctx.check("R09.7", f"{fi.key}::negative widths are refused", True if neg else None, None, fi)
+
+
+def r09_8(ctx, m):
+    """sub-space transforms are normalised over the transformed axes only"""
+    ctx.rule("R09.8", "back-end transforms with an `axes` parameter never bring the element count of the WHOLE array (x.size, "
+                      "prod(x.shape), len(x.ravel())) into their result: the normalisation of an inverse transform over a subset of "
+                      "the axes is the product of those axes' lengths (delegated to the library via inorm / scipy's ifftn)", floor=6)
+    for modn in (DD,):
+        mod = m.module(modn)
+        for fi in mod.all_functions:
+            if "axes" not in fi.params():
+                continue
+            ctx.saw_func(fi)
+            whole = []
+            for x in walk_no_nested(fi.node):
+                if isinstance(x, ast.Attribute) and x.attr == "size" and isinstance(x.ctx, ast.Load):
+                    whole.append(x)
+                if isinstance(x, ast.Call) and call_name(x) in ("prod", "product") and x.args and src(x.args[0]).endswith(".shape"):
+                    whole.append(x)
+                if isinstance(x, ast.Call) and src(x.func) == "len" and x.args and ("ravel" in src(x.args[0]) or "flatten" in src(x.args[0])):
+                    whole.append(x)
+            # only sizes that enter arithmetic matter
+            arith = []
+            for b in walk_no_nested(fi.node):
+                if isinstance(b, (ast.BinOp, ast.AugAssign)):
+                    for w in whole:
+                        if any(y is w for y in ast.walk(b)):
+                            arith.append(w)
+            ctx.check("R09.8", f"{fi.key}::no whole-array element count in the result", not arith,
+                      f"`{src(arith[0])}` enters the arithmetic: wrong by the product of the untransformed axes whenever `axes` is a proper subset"
+                      if arith else None, fi, arith[0] if arith else None)
+
+
+_run_c09c = run
+
+
+def run(ctx):  # noqa: F811
+    _run_c09c(ctx)
+    r09_6(ctx, ctx.model)
+    r09_7(ctx, ctx.model)
+    r09_8(ctx, ctx.model)
